@@ -280,7 +280,11 @@ class Paraxial:
         max_field = self.optic.fields.max_y_field
 
         if self.optic.field_type == 'object_height':
-            u1 = 0.1 * max_field / y[-1]
+            # height of the traced ray at the object (y[-1] is its height
+            # at the first surface, which lies at z = 0)
+            obj_z = self.optic.object_surface.geometry.cs.z
+            y_obj = y[-1] - u[-1] * obj_z
+            u1 = 0.1 * max_field / y_obj
         elif self.optic.field_type == 'angle':
             u1 = 0.1 * np.tan(np.deg2rad(max_field)) / u[-1]
 
